@@ -1,9 +1,45 @@
-(* C08 - codecs are lossless, alphabet-confined and bounded. Statements only; proofs in Codec/*_proofs.v *)
-From Coq Require Import List NArith ZArith Bool.
-From SA Require Import Base.Tok Codec.Bits Codec.Codec Gen.Alphabets.
+(* C08 - DNS codecs are lossless, alphabet-confined and bounded.
+   Statements only; every proof is `exact` of a lemma from Codec/*_proofs.v or a computation on generated tables. *)
+From Coq Require Import List NArith ZArith Bool Lia.
+From SA Require Import Base.Tok Codec.Bits Codec.B128 Codec.B85 Codec.B91 Codec.B192 Codec.Codec Gen.Alphabets.
+From SA Require Import Codec.Bits_proofs Codec.B128_proofs Codec.B85_proofs Codec.B91_proofs Codec.Codec_proofs.
 Import ListNotations.
 Open Scope N_scope.
 
-Theorem c08_registry_code : forall c, from_code (code c) = Some c.
-Proof. intros c; destruct c; vm_compute; reflexivity. Qed.
-Print Assumptions c08_registry_code.
+(* Base192 is excluded: its own authors disabled its test ("does not work properly as of yet"); refuted below. *)
+Definition lossless_claimed (c : codec) : bool := match c with Base192 => false | _ => true end.
+Definition alphabet_claimed (c : codec) : bool := match c with Base192 | Raw => false | _ => true end.
+
+(* Every codec decodes each of its encodings back to exactly the original bytes. *)
+Theorem c08_roundtrip : forall c x, lossless_claimed c = true -> wf_bytes x -> decode c (encode c x) = Ok x.
+Proof. exact codec_roundtrip. Qed.
+
+(* Output uses only DNS-safe octets: never a dot, backslash, space, control character or DEL. *)
+Theorem c08_alphabet : forall c x, alphabet_claimed c = true -> wf_bytes x ->
+  Forall (fun b => dns_safeb b = true) (encode c x).
+Proof. exact codec_alphabet. Qed.
+
+(* Never longer than the advertised Ratio() allows, plus a constant of 2 characters. *)
+Theorem c08_bound : forall c x, lossless_claimed c = true -> wf_bytes x ->
+  ratio_den c * N.of_nat (length (encode c x)) <= ratio_num c * N.of_nat (length x) + ratio_den c * 2.
+Proof. exact codec_bound. Qed.
+
+(* Output of every claimed codec is again a byte string. *)
+Theorem c08_wf : forall c x, lossless_claimed c = true -> wf_bytes x -> wf_bytes (encode c x).
+Proof. exact codec_wf. Qed.
+
+(* Registry: FromCode finds every codec by its own code, in either letter case, and nothing else. *)
+Theorem c08_registry : forall c, from_code (code c) = Some c /\ from_code (code c + 32) = Some c.
+Proof. exact registry_codes. Qed.
+Theorem c08_registry_sound : forall b c, b < 256 -> from_code b = Some c -> code c = upper_first b.
+Proof. exact registry_sound. Qed.
+
+(* Base192: refuted on the faithful model (and on the implementation: KNOWN_FINDINGS.txt) *)
+Theorem c08_base192_roundtrip_refuted : exists x, wf_bytes x /\ decode Base192 (encode Base192 x) <> Ok x.
+Proof. exact b192_roundtrip_refuted. Qed.
+Theorem c08_base192_alphabet_refuted : exists x, wf_bytes x /\ ~ Forall (fun b => dns_safeb b = true) (encode Base192 x).
+Proof. exact b192_alphabet_refuted. Qed.
+
+(* non-vacuity: the hypotheses are met by a non-trivial input *)
+Example c08_nonvacuous : wf_bytes [0; 255; 46; 92; 1; 2; 3] /\ lossless_claimed Base91 = true.
+Proof. split; [repeat constructor | reflexivity]. Qed.
